@@ -217,7 +217,7 @@ def baton_run(run, cfg, strategy, label):
         conn.vf_log = log
         conn._write_lock = baton.LockProxy(sched)
         conn.vf_send_hook = lambda kind, proxy, data: sched.step('send') \
-            if sched.controlled() else None
+            if kind == 'send' and sched.controlled() else None
         C.select = SelectShim
         C.NetworkingThread.run = run_wrapper
         conn.connect()
